@@ -12,7 +12,9 @@ is the pre-repair formula, kept as `passthroughOld`.
   (`newtype base`, `get_newtype_base(t)` = `base`) or a `Literal[…]` whose values carry their class;
 * a value is its class together with an `Obj` that decides `==` (`MyInt(1)`, `IE.X`, `1`, `True` and `1.0` are
   five values of five classes that are all `==`);
-* `sub a c` is `is_subclass(a, c)` on configured classes — an arbitrary relation, nothing is assumed about it.
+* `sub a c` is `is_subclass(a, c)` on configured classes — an arbitrary relation, nothing is assumed about it;
+  `SubStar direct` (end of the file) is `issubclass` over a hierarchy given by its direct-base relation, for the
+  statements about classes two or more levels below a member.
 -/
 namespace CattrsModel.Passthrough
 open CattrsModel
@@ -180,5 +182,17 @@ def passthroughOld (P : PS) (U : List Member) (cl : Nat) (v : Obj) : Out :=
   else if (nonLiteralClasses P U).contains cl then .same
   else if (spillover P U).isEmpty then .reject
   else .spill (spillover P U)
+
+/-! ### `issubclass` over a class hierarchy, and the augmentation step reading direct bases only -/
+
+/-- `issubclass(a, c)` as the reflexive-transitive closure of the direct-base relation (`c in a.__bases__`) -/
+inductive SubStar (direct : Nat → Nat → Bool) : Nat → Nat → Prop where
+  | refl (a : Nat) : SubStar direct a a
+  | step {a b c : Nat} : direct a b = true → SubStar direct b c → SubStar direct a c
+
+/-- NOT the code: `non_literal_classes |= {a for a in args if not non_literal_classes.isdisjoint(a.__bases__)}` — a
+configured class is added only when it is a DIRECT child of an accepted member (negative witness) -/
+def passthroughDirect (P : PS) (direct : Nat → Nat → Bool) (U : List Member) (cl : Nat) (v : Obj) : Out :=
+  passthrough { P with sub := direct } U cl v
 
 end CattrsModel.Passthrough
